@@ -140,10 +140,14 @@ CLAIMS.update({
  "C08": dict(
     text="Theorems (Props/C08): the decision logic of commit stated outright (integrity mismatch => integrity error, "
          "checked before size; size mismatch => size error carrying (wanted, actual); matching => ok recording the declared "
-         "integrity); the phases up to the checks never aim at the index area and the index insertion never returns an "
+         "integrity); a declaration is checked by its STRONGEST algorithm (declaredOk_other_algorithm: first hash of another "
+         "algorithm than the writer's => rejected whatever weaker hashes it lists; declaredOk_sound; accepted_resolves: an "
+         "accepted declaration with one digest of that algorithm has the content path of the computed integrity, i.e. the "
+         "key is readable - F22); the phases up to the checks never aim at the index area and the index insertion never returns an "
          "integrity/size error, hence for EVERY state a commit that reports either error left every index path untouched. "
          "Correspondence: prior state x declared size {none,=,<,>} x declared integrity {none, ok, wrong, other algo, "
-         "multi-hash} x chunking x flavour x keyed/by-address.",
+         "multi-hash of the same algorithm ok / wrong, multi-hash naming a stronger algorithm with a wrong / an unverifiable "
+         "digest} x chunking x flavour x keyed/by-address; after an accepted keyed commit the key must read back the data.",
     note=TB + "the returned integrity of a by-address commit is the computed one even if one was declared (as in the code).",
     technique="Lean 4 proof (decision logic + AllCalls area analysis + run semantics) + differential correspondence"),
  "C13": dict(
